@@ -12,4 +12,8 @@ for g in nsqdx lookupx adminx ntfx relayx; do
   ./build.sh $g "$S" || { rm -rf "$S"; echo "setup: build of $g failed"; exit 1; }
   rm -rf "$S"
 done
+# bind the instrumented program to the real one: the repository's own tests must pass on the
+# rewritten sources with no explorer attached (diagnostic; a mismatch does not block checks)
+tools/conformance.sh > evidence/conformance.txt 2>&1 || echo "setup: WARNING instrumentation conformance run did not pass, see evidence/conformance.txt"
+tail -1 evidence/conformance.txt
 echo "setup ok"
